@@ -32,15 +32,18 @@ func callsOf(f *ssa.Function, name string) []*ssa.Call {
 	return out
 }
 
-func countCallsOf(f *ssa.Function, name string, skip func(*ssa.BasicBlock) bool) (int, int) {
-	return core.PathCount(f, func(ins ssa.Instruction) int {
+func countCallsOf(f *ssa.Function, name string, skipEdge func(b, s *ssa.BasicBlock) bool) (int, int) {
+	if len(f.Blocks) == 0 {
+		return 0, 0
+	}
+	return core.PathCountEdges(f.Blocks[0], nil, func(ins ssa.Instruction) int {
 		if call, ok := ins.(*ssa.Call); ok {
 			if g := core.Callee(&call.Call); g != nil && (core.FuncName(g) == name || core.StdCallee(&call.Call) == name) {
 				return 1
 			}
 		}
 		return 0
-	}, skip)
+	}, skipEdge)
 }
 
 // capturedValue: value of captured variable fv of closure cl as stored by the parent (single store), or the bound value itself.
@@ -191,15 +194,7 @@ func runC14(c *core.Ctx) {
 			if call.Call.Args[0] != ssa.Value(yf.Params[1]) || call.Call.Args[1] != ssa.Value(yf.Params[0]) || call.Call.Args[2] != ssa.Value(yf.Params[2]) {
 				return false, "the request is not target.receive(caller, in): it must go to the target and carry the caller and the input value"
 			}
-			closedEdge := func(b *ssa.BasicBlock) bool {
-				for _, cnd := range core.EdgeFacts(b) {
-					n := core.Normalize(cnd)
-					if n.True && flagRead(p, n.V, yf.Params[0].Name(), "isClosed", 0) {
-						return true
-					}
-				}
-				return false
-			}
+			closedEdge := flagEdge(p, yf.Params[0].Name(), "isClosed", true)
 			min, max := countCallsOf(yf, core.FuncName(rc), closedEdge)
 			if min != 1 || max != 1 {
 				return false, fmt.Sprintf("request sent %d..%d times on the live path", min, max)
@@ -219,7 +214,7 @@ func runC14(c *core.Ctx) {
 			okRet := false
 			core.Instrs(yf, func(ins ssa.Instruction) {
 				if r, isR := ins.(*ssa.Return); isR {
-					v := core.Resolve(core.RetVals(r)[0])
+					v := core.Resolve(liveValue(core.Resolve(core.RetVals(r)[0]), closedEdge))
 					if ex, isE := v.(*ssa.Extract); isE && ex.Tuple == ssa.Value(recv) && ex.Index == 0 || v == ssa.Value(recv) {
 						okRet = true
 					}
